@@ -86,6 +86,9 @@ pub fn run(cfg: &RunCfg) -> Ctx {
     for k in ["peers.seen.none", "peers.seen.client1", "peers.seen.client3-chain"] {
         all.floor(k, 5);
     }
+    if !crate::ctx::small() {
+        all.merge(par_cases(cfg, "balance-tls", cfg.n(12, 16 * 12), || (), |_, _rng, ctx, i| balance_tls_case(ctx, i)));
+    }
     all.add("matrix.size", n);
     for k in ["expect.success", "expect.fail.chain", "expect.fail.name", "expect.fail.alpn", "expect.fail.client_auth", "observed.handshake_records", "observed.peer_certs_some", "observed.peer_certs_none"] {
         all.floor(k, 5);
@@ -690,4 +693,111 @@ pub fn peers_case(rng: &mut Rng, ctx: &mut Ctx, with_shutdown: bool) {
         ctx.count("peers.shutdown_with_silent_connection");
     }
     ctx.fingerprint(format!("peers|{:?}|{:?}|{:?}|{}", order, keep_open, stalled_at, with_shutdown as u8), true);
+}
+
+/// `Channel::balance_list` over real loopback TCP with two TLS servers: every endpoint of a
+/// balanced channel authenticates its server with ITS OWN TLS settings.  Server B presents a
+/// perfectly good certificate, but the endpoint that leads to it is configured with roots (or a
+/// name) under which that certificate must be refused — so no request may ever reach B's handlers,
+/// while A (reached through a correctly configured endpoint) keeps serving.
+fn balance_tls_case(ctx: &mut Ctx, i: u64) {
+    use std::sync::atomic::Ordering::SeqCst;
+    let variant = ["b-wrong-roots", "b-wrong-name", "both-good"][(i % 3) as usize];
+    let bad_first = (i / 3) % 2 == 1;
+    ctx.begin(variant, json!({"variant": variant, "misconfigured_endpoint_listed_first": bad_first}));
+    let rt = match tokio::runtime::Builder::new_current_thread().enable_all().build() {
+        Ok(rt) => rt,
+        Err(_) => return,
+    };
+    let (ha, hb) = (Handler::new(), Handler::new());
+    let (ha2, hb2) = (ha.clone(), hb.clone());
+    let res: Result<(u64, u64, Vec<String>), (String, String)> = rt.block_on(async move {
+        let limit = Duration::from_secs(20);
+        let mut stops = Vec::new();
+        let mut ports = Vec::new();
+        for h in [ha2, hb2] {
+            let l = match std::net::TcpListener::bind("127.0.0.1:0") {
+                Ok(l) => l,
+                Err(e) => return Err(("sockets-unavailable".to_string(), e.to_string())),
+            };
+            ports.push(l.local_addr().map_err(|e| ("sockets-unavailable".to_string(), e.to_string()))?.port());
+            l.set_nonblocking(true).map_err(|e| ("sockets-unavailable".to_string(), e.to_string()))?;
+            let l = tokio::net::TcpListener::from_std(l).map_err(|e| ("sockets-unavailable".to_string(), e.to_string()))?;
+            let incoming = futures_util::stream::unfold(l, |l| async move {
+                let r = l.accept().await.map(|(s, _)| s);
+                Some((r, l))
+            });
+            let tls = ServerTlsConfig::new().identity(Identity::from_pem(SERVER_PEM, SERVER_KEY));
+            let mut sb = Server::builder().tls_config(tls).map_err(|e| ("harness".to_string(), format!("server tls_config: {}", e)))?;
+            let router = sb.add_service(VerifServer::new(h));
+            let (tx, rx) = tokio::sync::oneshot::channel::<()>();
+            let task = tokio::spawn(async move {
+                let _ = router.serve_with_incoming_shutdown(incoming, async move { let _ = rx.await; }).await;
+            });
+            stops.push((task, tx));
+        }
+        let good = ClientTlsConfig::new().ca_certificate(Certificate::from_pem(CA1)).domain_name("verif.test");
+        let for_b = match variant {
+            "b-wrong-roots" => ClientTlsConfig::new().ca_certificate(Certificate::from_pem(CA2)).domain_name("verif.test"),
+            "b-wrong-name" => ClientTlsConfig::new().ca_certificate(Certificate::from_pem(CA1)).domain_name("other.test"),
+            _ => good.clone(),
+        };
+        let ep_a = Endpoint::from_shared(format!("https://127.0.0.1:{}", ports[0])).and_then(|e| e.tls_config(good)).map_err(|e| ("harness".to_string(), e.to_string()))?;
+        let ep_b = Endpoint::from_shared(format!("https://127.0.0.1:{}", ports[1])).and_then(|e| e.tls_config(for_b)).map_err(|e| ("harness".to_string(), e.to_string()))?;
+        let eps = if bad_first { vec![ep_b, ep_a] } else { vec![ep_a, ep_b] };
+        let channel = tonic::transport::Channel::balance_list(eps.into_iter());
+        let mut client = VerifClient::new(channel);
+        let (mut oks, mut errs) = (0u64, 0u64);
+        let mut codes = Vec::new();
+        for n in 0..30u64 {
+            match tokio::time::timeout(limit, client.unary(tonic::Request::new(Msg { data: vec![5; 6], seq: n, tag: String::new() }))).await {
+                Err(_) => return Err(("hang".into(), format!("call {} on the balanced channel did not resolve within 20 s", n + 1))),
+                Ok(Ok(_)) => oks += 1,
+                Ok(Err(s)) => {
+                    errs += 1;
+                    codes.push(format!("{:?}", s.code()));
+                }
+            }
+            tokio::time::sleep(Duration::from_millis(2)).await;
+        }
+        drop(client);
+        for (task, tx) in stops {
+            let _ = tx.send(());
+            let _ = tokio::time::timeout(Duration::from_secs(10), task).await;
+        }
+        Ok((oks, errs, codes))
+    });
+    drop(rt);
+    let (oks, errs, codes) = match res {
+        Ok(x) => x,
+        Err((d, w)) if d == "sockets-unavailable" => {
+            ctx.count("balance.sockets_unavailable");
+            let _ = w;
+            return;
+        }
+        Err((d, w)) => {
+            ctx.violation(&d, w);
+            return;
+        }
+    };
+    let (na, nb) = (ha.total_entered.load(SeqCst), hb.total_entered.load(SeqCst));
+    if variant != "both-good" && nb != 0 {
+        ctx.violation("handler-reached", format!("{} request(s) reached the server behind the endpoint whose own TLS settings ({}) must refuse its certificate; the other endpoint of the balanced channel is configured differently", nb, variant));
+    }
+    if na + nb != oks {
+        ctx.violation("ok-without-handler", format!("{} calls returned Ok, the two handlers ran {} + {} times", oks, na, nb));
+    }
+    if oks == 0 {
+        ctx.violation("failed-but-must-succeed", format!("none of 30 calls on the balanced channel succeeded although one endpoint is correctly configured and its server is up (errors: {:?})", codes.iter().take(5).collect::<Vec<_>>()));
+    }
+    if variant == "both-good" && errs != 0 {
+        ctx.violation("failed-but-must-succeed", format!("{} of 30 calls failed although both endpoints are correctly configured ({:?})", errs, codes.iter().take(5).collect::<Vec<_>>()));
+    }
+    for c in &codes {
+        ctx.distinct("balance.error_codes", c);
+    }
+    ctx.count(&format!("balance.{}", variant));
+    ctx.add("observed.balance_calls_ok", oks);
+    ctx.add("observed.balance_calls_failed", errs);
+    ctx.fingerprint(format!("balance|{}|{}", variant, bad_first as u8), true);
 }
